@@ -65,6 +65,67 @@ def rule_b(ctx):
     ctx.floor(R, 1)
 
 
+def _fold_face_to_cell(f):
+    """Fold face_to_cell for grids of 1, 2 and 3 dimensions with a symbolic evaluation point: the in-place updates of the result, in any
+    order, must be exactly -- per axis d -- `out[:, .., :-1, ..., d] += pt[d] * R_d` and `out[:, .., 1:, ..., d] += (1 - pt[d]) * R_d`
+    with R_d = flat_flux[grid.faces[d]].reshape(grid.faces_shape[d], order='F').  Disagreements, or None outside the folding language."""
+    from ..fold import Arr, Folder, Obj, Opaque, Raised, Refuse, Sym
+
+    bad = []
+    for dim in (1, 2, 3):
+        grid = Obj("grid", {"dim": dim, "shape": (4, 5, 6)[:dim], "faces": [Opaque("idx", f"F{d}") for d in range(dim)], "faces_shape": [Opaque("shape", f"FS{d}") for d in range(dim)]})
+        flux = Opaque("arr", "FLUX")
+        ptv = Opaque("arr", "PT")
+        fo = Folder(symbolic=True)
+        fo.func_stack.append(f.node)
+        # np.array([pt]) of the one-dimensional case: the point itself, as a one-element sequence
+        fo.overrides = {"np.array": lambda a, k: a[0] if a and isinstance(a[0], list) else Sym("np.array", a, k)}
+        try:
+            r = fo.call(f.node, [grid, flux, ptv])
+        except (Refuse, Raised):
+            return None
+        ups = [t for t in fo.trace if isinstance(t, Sym) and t.fn == "augitem"]
+        if not isinstance(r, Arr) or tuple(r.shape) != (4, 5, 6)[:dim] + (dim,):
+            bad.append(f"dim {dim}: result is {r!r}, documented zero array of shape (*grid.shape, dim)")
+            continue
+        if any(t.args[0] is not r for t in ups) or any(t.fn == "setitem" for t in fo.trace if isinstance(t, Sym)):
+            return None
+        env = {f.params[0]: grid, f.params[1]: flux, f.params[2]: ([ptv] if dim == 1 else ptv)}
+        ref = Folder(symbolic=True)
+
+        def term(src):
+            return repr(ref.ev(ast.parse(src, mode="eval").body, env))
+        want = {}
+        g_, fl_, pt_ = f.params[0], f.params[1], f.params[2]
+        for d in range(dim):
+            R_ = f"{fl_}[{g_}.faces[{d}]].reshape({g_}.faces_shape[{d}], order='F')"
+            lead = (slice(None),) * d
+            want[_show_index(lead + (slice(None, -1), Ellipsis, d))] = {term(f"{pt_}[{d}] * {R_}"), term(f"{R_} * {pt_}[{d}]")}
+            want[_show_index(lead + (slice(1, None), Ellipsis, d))] = {term(f"(1 - {pt_}[{d}]) * {R_}"), term(f"{R_} * (1 - {pt_}[{d}])")}
+        got = {}
+        for t in ups:
+            idx, op, val = t.args[1], t.args[2], t.args[3]
+            if not isinstance(idx, tuple):
+                return None
+            got.setdefault(_show_index(idx), []).append((op, repr(val)))
+        for idx, alts in want.items():
+            g = got.get(idx, [])
+            if len(g) != 1 or g[0][0] != "+" or g[0][1] not in alts:
+                bad.append(f"dim {dim}: update of out[{idx}] is {g or 'missing'}, documented += {sorted(alts)[0]}")
+        extra = [i for i in got if i not in want]
+        if extra:
+            bad.append(f"dim {dim}: additional updates at {extra}")
+    return bad
+
+
+def _show_index(idx):
+    def one(x):
+        if isinstance(x, slice):
+            return f"{'' if x.start is None else x.start}:{'' if x.stop is None else x.stop}"
+        return "..." if x is Ellipsis else repr(x)
+    return ", ".join(one(x) for x in idx)
+
+
 def rule_c(ctx):
     R = "C06.c"
     ctx.rule(R, "reconstruction interpolates between the two faces of each cell: per axis d two updates write component d only, one on "
@@ -80,6 +141,14 @@ def rule_c(ctx):
     per_axis = {}
     if not ups or not all(isinstance(s.target.slice, ast.Tuple) for s in ups):
         ctx.instance(R, 3)
+        sem = _fold_face_to_cell(f)
+        if sem is not None:
+            ctx.ob(R, f.qname, "per axis d: component d of cells [:-1] gets pt[d] * faces of axis d, of cells [1:] gets (1 - pt[d]) * the same faces (folded for 1, 2, 3 dimensions)",
+                   not sem, "; ".join(sem[:3]), f.node, evidence=True)
+            ctx.floor(R, 3)
+            dflt = [norm(s.value) for s in ast.walk(f.node) if isinstance(s, ast.Assign) and norm(s.targets[0]) == pt and dim_guard(s, f.node) is None]
+            ctx.ob(R, f.qname, "default evaluation point is the cell centre", f"np.ones({g}.dim) / 2" in dflt, str(dflt), f.node)
+            return
         ctx.ob(R, f.qname, "per-axis updates `cell_flux[<slices>, d] += ...` with literal slice tuples", False, "update statements with literal index tuples not found (computed index tuples are not evaluated)", f.node)
         ctx.floor(R, 3)
         return
@@ -125,6 +194,10 @@ def rule_c(ctx):
                 factors = factors + fp
         ctx.ob(R, f.qname, f"axis {d}: one update per side and the two factors sum to 1", kinds == {"low", "high"} and factors == Poly.const(1), f"kinds {kinds}, sum {factors!r}", f.node)
     ctx.floor(R, 3)
+    sem = _fold_face_to_cell(f)
+    if sem is not None:
+        ctx.ob(R, f.qname, "per axis d: component d of cells [:-1] gets pt[d] * faces of axis d, of cells [1:] gets (1 - pt[d]) * the same faces (folded for 1, 2, 3 dimensions)",
+               not sem, "; ".join(sem[:3]), f.node, evidence=True)
     dflt = [norm(s.value) for s in ast.walk(f.node) if isinstance(s, ast.Assign) and norm(s.targets[0]) == pt and dim_guard(s, f.node) is None]
     ctx.ob(R, f.qname, "default evaluation point is the cell centre", f"np.ones({g}.dim) / 2" in dflt, str(dflt), f.node)
     ctx.ob(R, f.qname, "result is zero-initialised with one component per axis and returned", alloc_ok and am.has(f.node, "return cell_flux") is not None, "", f.node)
